@@ -18,8 +18,24 @@ import (
 // ---- cases ----
 
 type batchIn struct {
-	Media [][]byte `json:"media"` // marshalled media packets
-	N     uint32   `json:"n"`     // numFecPackets
+	Media [][]byte `json:"media"`           // media packets as they go on the wire
+	Flags []int    `json:"flags,omitempty"` // per packet how it is handed over (see parse); absent = all 0
+	N     uint32   `json:"n"`               // numFecPackets
+}
+
+// hand-over flags of a media packet
+const (
+	flagPlain      = 0    // the rtp.Packet pion/rtp unmarshals from the bytes
+	flagInPayload  = 1    // Header.Padding set, PaddingSize 0, padding bytes at the end of the payload (older pion/rtp convention)
+	flagDeprecated = 2    // padding count in the deprecated Packet.PaddingSize field (direct EncodeFec only)
+	flagNoPBit     = 1000 // 1000 + c: Header.PaddingSize c without Header.Padding (c trailing zero bytes, no P bit)
+)
+
+func flagsOf(fl []int, n int) []int {
+	out := make([]int, n)
+	copy(out, fl)
+
+	return out
 }
 
 type repObs struct {
@@ -50,21 +66,62 @@ type icptCase struct {
 	FecSSRC   uint32     `json:"fec_ssrc"`
 	MediaSSRC uint32     `json:"media_ssrc"`
 	Writes    [][]byte   `json:"writes"`
+	Flags     []int      `json:"flags,omitempty"`
 	Kinds     []int      `json:"kinds,omitempty"`
 	Outs      [][][]byte `json:"outs,omitempty"`
 }
 
-// parse rebuilds the rtp.Packet the implementation is given from its marshalled form and checks that
-// pion/rtp marshals it back to the same bytes (the bytes Coq sees are what Marshal gives).
-func parse(b []byte) rtp.Packet {
+// wireOf is the byte string a (header, payload) pair has on the wire: pion/rtp's Marshal, and for the
+// older convention (Padding set, no PaddingSize, padding inside the payload), which Packet.Marshal
+// rejects, the marshalled header followed by the payload (what pion/srtp and internal/rtpbuffer do).
+func wireOf(h *rtp.Header, payload []byte, deprecatedPad byte) ([]byte, error) {
+	if h.Padding && h.PaddingSize == 0 && deprecatedPad == 0 {
+		hb, err := h.Marshal()
+		if err != nil {
+			return nil, err
+		}
+
+		return append(hb, payload...), nil
+	}
+	p := rtp.Packet{Header: *h, Payload: payload, PaddingSize: deprecatedPad} //nolint:staticcheck
+
+	return p.Marshal()
+}
+
+// parse rebuilds the rtp.Packet the implementation is given from its wire form and the hand-over flag
+// and checks that the wire form of that packet is the same bytes (the bytes Coq sees).
+func parse(b []byte, flag int) rtp.Packet {
 	var p rtp.Packet
 	buf := append([]byte(nil), b...)
-	if err := p.Unmarshal(buf); err != nil {
-		panic(fmt.Sprintf("harness: generated packet does not unmarshal: %v", err))
+	switch {
+	case flag == flagInPayload:
+		n, err := p.Header.Unmarshal(buf)
+		if err != nil || !p.Header.Padding {
+			panic(fmt.Sprintf("harness: flag 1 packet: header does not unmarshal / no P bit: %v", err))
+		}
+		p.Payload = buf[n:]
+		p.Header.PaddingSize = 0
+	case flag >= flagNoPBit:
+		c := flag - flagNoPBit
+		if err := p.Unmarshal(buf); err != nil || p.Header.Padding || len(p.Payload) < c {
+			panic(fmt.Sprintf("harness: flag 1000+c packet does not unmarshal: %v", err))
+		}
+		p.Payload = p.Payload[:len(p.Payload)-c]
+		p.Header.PaddingSize = byte(c)
+	default:
+		if err := p.Unmarshal(buf); err != nil {
+			panic(fmt.Sprintf("harness: generated packet does not unmarshal: %v", err))
+		}
+		if flag == flagDeprecated {
+			p.PaddingSize = p.Header.PaddingSize //nolint:staticcheck
+			p.Header.PaddingSize = 0
+		} else {
+			p.PaddingSize = 0 //nolint:staticcheck
+		}
 	}
-	m, err := p.Marshal()
+	m, err := wireOf(&p.Header, p.Payload, p.PaddingSize) //nolint:staticcheck
 	if err != nil || string(m) != string(b) {
-		panic(fmt.Sprintf("harness: pion/rtp round trip is not the identity: %v\n%x\n%x", err, b, m))
+		panic(fmt.Sprintf("harness: wire form of the rebuilt packet differs (flag %d): %v\n%x\n%x", flag, err, b, m))
 	}
 
 	return p
@@ -104,8 +161,9 @@ func runEnc(c encCase) encCase {
 	c.Obs = nil
 	for _, b := range c.Batches {
 		media := make([]rtp.Packet, len(b.Media))
+		fl := flagsOf(b.Flags, len(b.Media))
 		for i, m := range b.Media {
-			media[i] = parse(m)
+			media[i] = parse(m, fl[i])
 		}
 		o := encodeOnce(enc, media, b.N)
 		c.Obs = append(c.Obs, o)
@@ -122,6 +180,15 @@ func bytesList(bs [][]byte) string {
 	s := make([]string, len(bs))
 	for i, b := range bs {
 		s[i] = cq.Bytes(b)
+	}
+
+	return cq.L(s)
+}
+
+func intList(xs []int) string {
+	s := make([]string, len(xs))
+	for i, x := range xs {
+		s[i] = cq.Z(int64(x))
 	}
 
 	return cq.L(s)
@@ -147,7 +214,8 @@ func (c encCase) toCase(buckets ...string) cq.Case {
 		if len(reps) > 0 {
 			triv = false
 		}
-		bs[i] = cq.T(bytesList(b.Media), cq.ZU(uint64(b.N)), cq.T(cq.Z(int64(c.Obs[i].Kind)), cq.L(reps)))
+		bs[i] = cq.T(bytesList(b.Media), intList(flagsOf(b.Flags, len(b.Media))), cq.ZU(uint64(b.N)),
+			cq.T(cq.Z(int64(c.Obs[i].Kind)), cq.L(reps)))
 	}
 
 	return cq.Case{
@@ -159,8 +227,8 @@ func (c encCase) toCase(buckets ...string) cq.Case {
 type recWriter struct{ got [][]byte }
 
 func (w *recWriter) Write(h *rtp.Header, payload []byte, _ interceptor.Attributes) (int, error) {
-	p := rtp.Packet{Header: h.Clone(), Payload: payload}
-	m, err := p.Marshal()
+	hc := h.Clone()
+	m, err := wireOf(&hc, payload, 0)
 	if err != nil {
 		panic(fmt.Sprintf("harness: packet reaching the writer does not marshal: %v", err))
 	}
@@ -183,8 +251,9 @@ func runIcpt(c icptCase) icptCase {
 		SSRC: c.MediaSSRC, PayloadTypeForwardErrorCorrection: c.PT, SSRCForwardErrorCorrection: c.FecSSRC,
 	}, w)
 	c.Kinds, c.Outs = nil, nil
-	for _, b := range c.Writes {
-		p := parse(b)
+	fl := flagsOf(c.Flags, len(c.Writes))
+	for i, b := range c.Writes {
+		p := parse(b, fl[i])
 		w.got = nil
 		kind := func() (k int) {
 			defer func() {
@@ -223,7 +292,7 @@ func (c icptCase) toCase(buckets ...string) cq.Case {
 
 	return cq.Case{
 		Coq: cq.T(cq.T(cq.ZU(uint64(c.NM)), cq.ZU(uint64(c.NF)), cq.ZU(uint64(c.PT)), cq.ZU(uint64(c.FecSSRC)),
-			cq.Bytes(be32(c.MediaSSRC))), bytesList(c.Writes), cq.L(outs)),
+			cq.Bytes(be32(c.MediaSSRC))), bytesList(c.Writes), intList(flagsOf(c.Flags, len(c.Writes))), cq.L(outs)),
 		JSON: c, Buckets: buckets, Trivial: triv,
 	}
 }
@@ -233,6 +302,8 @@ func (c icptCase) toCase(buckets ...string) cq.Case {
 type shape struct {
 	maxPayload int  // typical payload bound
 	big        bool // allow 1200 / 1500 byte payloads
+	direct     bool // packets are handed to EncodeFec as rtp.Packet values (the deprecated field is expressible)
+	inPayload  bool // some padded packets carry their padding inside the payload (chosen per case, 1 in 6)
 }
 
 func genPayloadLen(r *rand.Rand, s shape) int {
@@ -252,7 +323,7 @@ func genPayloadLen(r *rand.Rand, s shape) int {
 
 // genPacket builds one media packet: CSRCs, one-/two-byte extensions, padding, marker, any PT,
 // occasionally a version other than 2.
-func genPacket(r *rand.Rand, ssrc uint32, sn uint16, s shape, buckets map[string]bool) []byte {
+func genPacket(r *rand.Rand, ssrc uint32, sn uint16, s shape, buckets map[string]bool) ([]byte, int) {
 	p := rtp.Packet{}
 	p.Version = 2
 	if r.Intn(25) == 0 {
@@ -297,20 +368,49 @@ func genPacket(r *rand.Rand, ssrc uint32, sn uint16, s shape, buckets map[string
 	}
 	p.Payload = make([]byte, genPayloadLen(r, s))
 	r.Read(p.Payload)
-	if r.Intn(6) == 0 {
-		p.Padding = true
-		p.Header.PaddingSize = uint8(1 + r.Intn(12))
+	flag := flagPlain
+	if r.Intn(5) == 0 {
+		c := 1 + r.Intn(12)
 		if r.Intn(12) == 0 {
-			p.Header.PaddingSize = 255
+			c = 255
 		}
-		buckets["padding"] = true
+		switch x := r.Intn(10); {
+		case x < 4 && s.inPayload: // older convention: P bit, the padding bytes are the end of the payload
+			p.Padding = true
+			flag = flagInPayload
+			buckets["padding-in-payload"] = true
+			switch r.Intn(10) {
+			case 0: // no padding bytes at all
+				buckets["padding-in-payload-invalid"] = true
+			case 1: // a zero count: not a valid RTP packet, still sent (and to be protected) byte for byte
+				p.Payload = append(p.Payload, make([]byte, c)...)
+				buckets["padding-in-payload-invalid"] = true
+			default:
+				pad := make([]byte, c)
+				pad[c-1] = byte(c)
+				p.Payload = append(p.Payload, pad...)
+			}
+		case x == 4 && s.direct:
+			p.Padding = true
+			p.PaddingSize = byte(c) //nolint:staticcheck
+			flag = flagDeprecated
+			buckets["padding-deprecated-field"] = true
+		case x == 5:
+			p.Header.PaddingSize = byte(c)
+			flag = flagNoPBit + c
+			buckets["paddingsize-without-P-bit"] = true
+		default:
+			p.Padding = true
+			p.Header.PaddingSize = byte(c)
+			buckets["padding"] = true
+		}
 	}
-	m, err := p.Marshal()
+	m, err := wireOf(&p.Header, p.Payload, p.PaddingSize) //nolint:staticcheck
 	if err != nil {
 		panic(err)
 	}
 
-	return m
+	return m, flag
 }
 
 var baseSNs = []uint16{0, 1, 65535, 65534, 32767, 32768, 1000} //nolint:gochecknoglobals
@@ -380,14 +480,15 @@ func kBucket(k int) string {
 	}
 }
 
-func genBatch(r *rand.Rand, ssrc uint32, sn uint16, k int, s shape, buckets map[string]bool) [][]byte {
+func genBatch(r *rand.Rand, ssrc uint32, sn uint16, k int, s shape, buckets map[string]bool) ([][]byte, []int) {
 	media := make([][]byte, k)
+	flags := make([]int, k)
 	for i := range media {
-		media[i] = genPacket(r, ssrc, sn+uint16(i), s, buckets) //nolint:gosec
+		media[i], flags[i] = genPacket(r, ssrc, sn+uint16(i), s, buckets) //nolint:gosec
 	}
 	buckets[kBucket(k)] = true
 
-	return media
+	return media, flags
 }
 
 func keys(m map[string]bool) []string {
@@ -411,15 +512,16 @@ func genEnc(r *rand.Rand, boundary, big bool) (encCase, []string) {
 	}
 	mssrc := r.Uint32()
 	nb := 3 + r.Intn(2)
-	s := shape{maxPayload: 48, big: big}
+	s := shape{maxPayload: 48, big: big, direct: true}
 	if big {
 		nb = 2
 	}
 	if boundary {
 		nb = 1 + r.Intn(2)
-		s = shape{maxPayload: 12}
+		s = shape{maxPayload: 12, direct: true}
 		b["boundary"] = true
 	}
+	s.inPayload = r.Intn(6) == 0
 	k := 1 + r.Intn(12)
 	if r.Intn(4) == 0 {
 		k = 1 + r.Intn(30)
@@ -451,50 +553,58 @@ func genEnc(r *rand.Rand, boundary, big bool) (encCase, []string) {
 			n = pickN(r, k, b)
 			b["n-change"] = true
 		}
-		media := genBatch(r, mssrc, sn, k, s, b)
+		media, flags := genBatch(r, mssrc, sn, k, s, b)
 		switch r.Intn(30) {
 		case 0: // a gap: must be declined
 			if k >= 2 {
 				j := 1 + r.Intn(k-1)
-				media[j] = genPacket(r, mssrc, sn+uint16(j)+1+uint16(r.Intn(3)), s, b) //nolint:gosec
+				media[j], flags[j] = genPacket(r, mssrc, sn+uint16(j)+1+uint16(r.Intn(3)), s, b) //nolint:gosec
 				b["gap"] = true
 			}
 		case 1: // out of order
 			if k >= 2 {
 				j := r.Intn(k - 1)
 				media[j], media[j+1] = media[j+1], media[j]
+				flags[j], flags[j+1] = flags[j+1], flags[j]
 				b["swapped"] = true
 			}
 		case 2:
-			media = nil
+			media, flags = nil, nil
 			b["empty"] = true
 		}
-		c.Batches = append(c.Batches, batchIn{Media: media, N: n})
+		c.Batches = append(c.Batches, batchIn{Media: media, Flags: flags, N: n})
 		if r.Intn(3) != 0 {
 			sn += uint16(k) //nolint:gosec
 		} else {
 			sn = pickSN(r, k, b)
 		}
 	}
-	if r.Intn(40) == 0 {
-		c.Batches[len(c.Batches)-1].N = 111 + uint32(r.Intn(3)) //nolint:gosec
+	if r.Intn(25) == 0 { // more FEC packets than the coverage table has rows, anywhere in the history
+		c.Batches[r.Intn(len(c.Batches))].N = bigN(r)
 		b["n>110"] = true
 	}
 
 	return c, keys(b)
 }
 
+// bigN: a FEC packet count above MaxFecPackets.  (Not 1<<32-1: a tree without the clamp allocates
+// make([]rtp.Packet, 0, numFecPackets) first and dies with "fatal error: out of memory", which no
+// recover() in this harness can turn into an observation.)
+func bigN(r *rand.Rand) uint32 {
+	return []uint32{111, 111, 112, 113, 200, 1000, 65536}[r.Intn(7)]
+}
+
 func genIcpt(r *rand.Rand, boundary bool) (icptCase, []string) {
 	b := map[string]bool{}
 	c := icptCase{PT: uint8(1 + r.Intn(127)), FecSSRC: 1 + r.Uint32()>>1, MediaSSRC: r.Uint32()}
-	s := shape{maxPayload: 32, big: r.Intn(25) == 0}
+	s := shape{maxPayload: 32, big: r.Intn(25) == 0, inPayload: r.Intn(6) == 0}
 	nms := []int{1, 2, 3, 5, 5, 8, 10, 16}
 	nm := nms[r.Intn(len(nms))]
 	batches := 2 + r.Intn(3)
 	if boundary {
 		nm = []int{46, 47, 109, 110}[r.Intn(4)]
 		batches = 1 + r.Intn(2)
-		s = shape{maxPayload: 8}
+		s = shape{maxPayload: 8, inPayload: s.inPayload}
 		b["boundary"] = true
 	}
 	if r.Intn(40) == 0 {
@@ -506,6 +616,10 @@ func genIcpt(r *rand.Rand, boundary bool) (icptCase, []string) {
 	if r.Intn(3) == 0 {
 		c.NF = 2
 	}
+	if r.Intn(25) == 0 {
+		c.NF = bigN(r)
+		b["n>110"] = true
+	}
 	b[kBucket(nm)] = true
 	sn := pickSN(r, nm+1, b)
 	total := nm*batches + r.Intn(nm+1)
@@ -514,14 +628,16 @@ func genIcpt(r *rand.Rand, boundary bool) (icptCase, []string) {
 	}
 	for i := 0; i < total; i++ {
 		if r.Intn(12) == 0 {
-			c.Writes = append(c.Writes, genPacket(r, c.MediaSSRC+1+uint32(r.Intn(3)), uint16(r.Intn(65536)), s, b)) //nolint:gosec
+			w, fl := genPacket(r, c.MediaSSRC+1+uint32(r.Intn(3)), uint16(r.Intn(65536)), s, b) //nolint:gosec
+			c.Writes, c.Flags = append(c.Writes, w), append(c.Flags, fl)
 			b["other-ssrc"] = true
 		}
 		if r.Intn(60) == 0 {
 			sn += uint16(1 + r.Intn(3)) //nolint:gosec
 			b["gap"] = true
 		}
-		c.Writes = append(c.Writes, genPacket(r, c.MediaSSRC, sn, s, b))
+		w, fl := genPacket(r, c.MediaSSRC, sn, s, b)
+		c.Writes, c.Flags = append(c.Writes, w), append(c.Flags, fl)
 		sn++
 	}
 
@@ -532,10 +648,12 @@ func main() {
 	o := cq.ParseFlags()
 	r := o.Rand()
 	mk := func(name, typ, pre string) *cq.Set {
-		return &cq.Set{
-			Name: name, Import: "IV.Check.C14Check", CaseType: typ,
-			Checks: []string{pre + "_mismatches", pre + "_spec_failures"},
+		checks := []string{pre + "_mismatches", pre + "_spec_failures"}
+		if pre == "enc" {
+			checks = append(checks, "enc_scratch_mismatches")
 		}
+
+		return &cq.Set{Name: name, Import: "IV.Check.C14Check", CaseType: typ, Checks: checks}
 	}
 	// several sets only to keep the generated .v files small (parsing byte literals dominates the check)
 	enc, encBig, encBnd := mk("c14enc", "enc_case", "enc"), mk("c14big", "enc_case", "enc"), mk("c14bnd", "enc_case", "enc")
@@ -564,33 +682,33 @@ func main() {
 	for _, f := range o.CorpusFiles() {
 		load(f, "corpus")
 	}
-	ne := o.Scale(480, 20000)
+	ne := o.Scale(480, 8000)
 	for i := 0; i < ne; i++ {
 		c, b := genEnc(r, false, false)
 		encs[i%4].Cases = append(encs[i%4].Cases, runEnc(c).toCase(b...))
 	}
-	ng := o.Scale(40, 1500)
+	ng := o.Scale(40, 600)
 	for i := 0; i < ng; i++ {
 		c, b := genEnc(r, false, true)
 		encBig.Cases = append(encBig.Cases, runEnc(c).toCase(b...))
 	}
-	nb := o.Scale(44, 1500)
+	nb := o.Scale(44, 600)
 	for i := 0; i < nb; i++ {
 		c, b := genEnc(r, true, false)
 		encBnd.Cases = append(encBnd.Cases, runEnc(c).toCase(b...))
 	}
-	ni := o.Scale(200, 6000)
+	ni := o.Scale(200, 2400)
 	for i := 0; i < ni; i++ {
 		c, b := genIcpt(r, false)
 		icpts[i%2].Cases = append(icpts[i%2].Cases, runIcpt(c).toCase(b...))
 	}
-	nib := o.Scale(10, 300)
+	nib := o.Scale(10, 150)
 	for i := 0; i < nib; i++ {
 		c, b := genIcpt(r, true)
 		icptBnd.Cases = append(icptBnd.Cases, runIcpt(c).toCase(b...))
 	}
 	cq.Write(o, "enc: histories of 1..5 EncodeFec calls through one encoder (batches of 1..30 packets, boundary batches of "+
-		"15/16/45/46/47/63/64/65/108/109/110/111; n in {0,1,k-1,k,k+1,110,>110,1..6}; CSRC, one-/two-byte extensions, padding 1..255, "+
+		"15/16/45/46/47/63/64/65/108/109/110/111; n in {0,1,k-1,k,k+1,110,>110,1..6}; CSRC, one-/two-byte extensions, padding 1..255 (PaddingSize, inside the payload with P bit, deprecated field, PaddingSize without P bit), "+
 		"marker, any PT, version != 2; payload 0..48, separate histories with 1200/1500; base SN incl. wrap inside the batch; same shape again / shape change; "+
 		"gaps, swaps, empty batches); non-trivial = at least one repair packet emitted; "+
 		"icpt: real FecInterceptor bound to one stream, 1..4 batches of numMedia in {0,1,2,3,5,8,10,16,46,47,109,110} plus packets of "+
